@@ -7,8 +7,8 @@ ASSUME = ["a single injected failure per operation, at a filesystem call the int
           "documented exceptions: path-based set/put panic when the flush of the source fails; the advisory re-touch after a lookup and per-entry temp-file cleanup ignore errors; a temp file whose own unlink was the failing call stays in .kismet_temp until age-based cleanup"]
 
 ERRNOS = {"open": ["EIO", "EACCES", "EMFILE", "ESTALE"], "create": ["EIO", "ENOSPC", "EACCES", "EMFILE"], "opentmp": ["EIO", "ENOSPC", "EMFILE"],
-          "stat": ["EIO", "EACCES", "ESTALE"], "fstat": ["EIO"], "unlink": ["EIO", "EACCES"], "rename": ["EIO", "ENOSPC", "EACCES"],
-          "link": ["EIO", "ENOSPC", "EACCES", "EMFILE"], "mkdir": ["EIO", "ENOSPC", "EACCES"], "futimens": ["EIO", "EPERM"], "chmod": ["EIO", "EPERM"],
+          "stat": ["EIO", "EACCES", "ESTALE"], "fstat": ["EIO"], "unlink": ["EIO", "EACCES"], "rename": ["EIO", "EXDEV", "ENOSPC", "EACCES"],
+          "link": ["EIO", "EXDEV", "ENOSPC", "EACCES", "EMFILE"], "mkdir": ["EIO", "ENOSPC", "EACCES"], "futimens": ["EIO", "EPERM"], "chmod": ["EIO", "EPERM"],
           "fchmod": ["EIO", "EPERM"], "fsync": ["EIO", "ENOSPC"], "write": ["ENOSPC", "EIO"], "close": ["EIO"], "opendir": ["EIO", "EACCES", "EMFILE"],
           "closedir": [], "lseek": ["EIO"], "copy_file_range": ["EIO", "ENOSPC"]}
 
@@ -135,6 +135,12 @@ def run(ctx):
             if opn in ("ensure", "gou") and cls == "OkSome" and d.get("content") == "P" and desc["op"][1] != "replace":
                 violations.append({"what": "%s re-populated although the entry exists (failed call: %s %s on %s)" % (opn, call, er, path), "classification": dict(label, kind="masked-miss"),
                                    "replay": {"kind": "fault", "scenario": L, "fault_seq": seq, "errno": er, "result": impl.results[1][1]}})
+        # 2c. a touch that reports "touched" has marked the entry as used (its whole effect)
+        if opn == "touch" and desc["pre"] in ("present", "alt") and impl.results[1][1].startswith("OkBool 1"):
+            for p in keyfiles:
+                if int(snap[p][6]) < int(snap[p][5]):
+                    violations.append({"what": "touch reported success but %s is not marked as used: atime %s < mtime %s (failed call: %s %s)" % (p, snap[p][6], snap[p][5], call, er), "classification": dict(label, kind="masked"),
+                                       "replay": {"kind": "fault", "scenario": L, "fault_seq": seq, "errno": er, "result": impl.results[1][1]}})
         # 3. directories stay valid: every key-named file is complete and read-only
         for p, f in snap.items():
             if f[1] == "f" and p.startswith("w/") and ".kismet_temp" not in p:
